@@ -155,6 +155,7 @@ struct Parked {
 struct Inner {
     parked: HashMap<String, Parked>,
     free_run: bool,
+    only: Vec<&'static str>,   // label prefixes that are scheduling points for this run (empty: all)
     log: Vec<Value>,
 }
 
@@ -171,7 +172,7 @@ impl AsyncSched {
             let actor = ACTOR.try_with(|a| a.clone()).unwrap_or(site_actor);
             let mut g = s2.inner.lock().unwrap();
             g.log.push(json!({"actor": actor, "label": label, "detail": detail}));
-            if g.free_run {
+            if g.free_run || (!g.only.is_empty() && !g.only.iter().any(|p| label.starts_with(p))) {
                 return None;
             }
             let (tx, rx) = oneshot::channel();
@@ -179,6 +180,11 @@ impl AsyncSched {
             Some(rx)
         })));
         s
+    }
+    /// restrict the scheduling points to labels with one of these prefixes; the other guarded points
+    /// of the library (added for other properties) are logged and passed through
+    pub fn only(&self, prefixes: &[&'static str]) {
+        self.inner.lock().unwrap().only = prefixes.to_vec();
     }
     pub fn uninstall(&self) {
         verif::install_point_hook(None);
